@@ -226,11 +226,19 @@ def check_structure(rep, facts, rel, rule):
 
 def check_rounds(rep, facts, rule):
     """R4.6: under compress, a compression round follows the pseudo expansion and a register-alias resolution precedes each round."""
-    order = [(n, g) for n, g, node, a, t in pipeline(facts)]
-    names = [n for n, g in order]
-    comp_idx = [i for i, (n, g) in enumerate(order) if n == 'transform_compressible']
-    pseudo_idx = [i for i, (n, g) in enumerate(order) if n == 'transform_pseudo_instructions']
-    alias_idx = [i for i, (n, g) in enumerate(order) if n == 'resolve_register_aliases']
+    rows = pipeline(facts)
+    order = [(n, g) for n, g, node, a, t in rows]
+
+    def is_pass(row, fname):
+        # a pass reached through thin wrappers is listed under the outermost wrapper's name: the function finally called counts
+        call = row[4]
+        return row[0] == fname or (call is not None and call.named(fname))
+    comp_idx = [i for i, r in enumerate(rows) if is_pass(r, 'transform_compressible')]
+    pseudo_idx = [i for i, r in enumerate(rows) if is_pass(r, 'transform_pseudo_instructions')]
+    alias_idx = [i for i, r in enumerate(rows) if is_pass(r, 'resolve_register_aliases')]
+    for fname, idx in (('transform_compressible', comp_idx), ('transform_pseudo_instructions', pseudo_idx), ('resolve_register_aliases', alias_idx)):
+        if not idx and fname not in facts.funcs:
+            raise AnalysisError('anchor vanished: pass {}'.format(fname))
     fn = facts.funcs['assemble']
     rep.check(bool(comp_idx) and bool(pseudo_idx) and max(comp_idx) > max(pseudo_idx), rule, 'a compression round follows pseudo-instruction expansion',
               lambda: Finding(rule, 'assemble', 'pipeline', 'no compression round runs after pseudo-instructions are expanded', line=fn.lineno))
@@ -241,7 +249,7 @@ def check_rounds(rep, facts, rule):
         rep.check(ok, rule, 'compression round {} sees alias-resolved register fields'.format(comp_idx.index(ci) + 1),
                   lambda ci=ci: Finding(rule, 'assemble', 'pipeline', 'a compression round runs before register aliases of the items it sees are resolved', line=fn.lineno))
     for i, (n, g) in enumerate(order):
-        if n == 'transform_compressible':
+        if i in comp_idx:
             rep.check(g == 'compress', rule, 'a compression round runs exactly when compression is requested',
                       lambda g=g: Finding(rule, 'assemble', 'pipeline', 'transform_compressible runs under the guard `{}` instead of exactly when the compress option is set: '
                                           '{}'.format(g, 'with -c some runs skip the round and eligible instructions stay 32 bits wide' if g.startswith('compress') else
